@@ -6,6 +6,7 @@ module S = Sexp
 let dispatch prop input observed =
   match prop with
   | "C19" -> C19.run input observed
+  | "C20" -> C20.run input observed
   | p -> failwith ("modelrun: unknown property " ^ p)
 
 let () =
